@@ -6,6 +6,7 @@ import glob, json, os, shutil, subprocess, sys, tempfile, time
 V = os.path.dirname(os.path.dirname(os.path.abspath(__file__)))
 pat = sys.argv[1] if len(sys.argv) > 1 else "*"
 tier = sys.argv[2] if len(sys.argv) > 2 else "quick"
+seeds = [int(x) for x in sys.argv[3].split(",")] if len(sys.argv) > 3 else [0]  # detection by a seeded search is probabilistic: several seeds measure it
 rows, missed = [], 0
 for d in sorted(glob.glob(os.path.join(V, "seeded", pat))):
     diff = os.path.join(d, "patch.diff")
@@ -25,11 +26,14 @@ for d in sorted(glob.glob(os.path.join(V, "seeded", pat))):
             rows.append((os.path.basename(d), "PATCH-DOES-NOT-APPLY", 0, "")); missed += 1; continue
         t0 = time.time()
         env = dict(os.environ, VERIF_REPO=S, VERIF_EVIDENCE_DIR=os.path.join(S, "ev"))
-        p = subprocess.run(["./check", pid, "--tier", tier], cwd=V, env=env, capture_output=True, text=True)
-        o = [l.strip() for l in p.stdout.splitlines() if l.strip().startswith("oracle=")]
-        ok = p.returncode == 1 and "VIOLATION property=" + pid in p.stdout
+        oks, o = [], []
+        for sd in seeds:
+            p = subprocess.run(["./check", pid, "--tier", tier, "--seed", str(sd)], cwd=V, env=env, capture_output=True, text=True)
+            o = o or [l.strip() for l in p.stdout.splitlines() if l.strip().startswith("oracle=")]
+            oks.append(p.returncode == 1 and "VIOLATION property=" + pid in p.stdout)
+        ok = all(oks)
         missed += not ok
-        rows.append((os.path.basename(d), "caught" if ok else f"MISSED(exit {p.returncode})", round(time.time() - t0), o[0][:120] if o else ""))
+        rows.append((os.path.basename(d), "caught" if ok else f"MISSED by seeds {[sd for sd, k in zip(seeds, oks) if not k]}", round(time.time() - t0), o[0][:120] if o else ""))
     finally:
         shutil.rmtree(S, ignore_errors=True)
     print(*rows[-1], flush=True)
